@@ -753,6 +753,35 @@ class NamedConditions(ast.NodeTransformer):
         return node
 
 
+class ThinWrappers(ast.NodeTransformer):
+    """every generator method of a class (no arguments beyond plain positional ones, no `return <value>`) becomes a non-generator wrapper
+    `def m(self, a, b=1): return self.__m_gen(a, b)` around a private generator that holds the body"""
+
+    def visit_ClassDef(self, node):
+        out = []
+        for m in node.body:
+            if isinstance(m, ast.FunctionDef) and not m.decorator_list and not m.name.startswith('__') \
+                    and any(isinstance(x, (ast.Yield, ast.YieldFrom)) for x in ast.walk(m)) \
+                    and not any(isinstance(x, (ast.FunctionDef, ast.Lambda)) and x is not m for x in ast.walk(m)) \
+                    and not any(isinstance(x, ast.Return) and x.value is not None for x in ast.walk(m)) \
+                    and not (m.args.vararg or m.args.kwarg or m.args.kwonlyargs or m.args.posonlyargs) and m.args.args and m.args.args[0].arg == 'self':
+                inner_name = '__%s_gen' % m.name.strip('_')
+                inner = ast.FunctionDef(name=inner_name, args=ast.arguments(posonlyargs=[], args=[ast.arg(arg=a.arg) for a in m.args.args], vararg=None, kwonlyargs=[],
+                                                                            kw_defaults=[], kwarg=None, defaults=[]),
+                                        body=m.body, decorator_list=[], returns=None, type_comment=None, type_params=[])
+                doc = [m.body[0]] if m.body and isinstance(m.body[0], ast.Expr) and isinstance(m.body[0].value, ast.Constant) and isinstance(m.body[0].value.value, str) else []
+                if doc:
+                    inner.body = m.body[1:] or [ast.Pass()]
+                call = ast.Call(func=ast.Attribute(value=ast.Name(id='self', ctx=ast.Load()), attr=inner_name, ctx=ast.Load()),
+                                args=[ast.Name(id=a.arg, ctx=ast.Load()) for a in m.args.args[1:]], keywords=[])
+                wrapper = ast.FunctionDef(name=m.name, args=m.args, body=doc + [ast.Return(value=call)], decorator_list=[], returns=m.returns, type_comment=None, type_params=[])
+                out += [wrapper, inner]
+            else:
+                out.append(m)
+        node.body = out
+        return node
+
+
 def _keywordify(repo):
     import os
     from .normalize import signatures, pick_signature
@@ -799,6 +828,10 @@ def equivalent_variants(repo='/repo'):
         t = NamedConditions().visit(ast.parse(src))
         return ast.unparse(ast.fix_missing_locations(t)) + '\n'
 
+    def thin(src):
+        t = ThinWrappers().visit(ast.parse(src))
+        return ast.unparse(ast.fix_missing_locations(t)) + '\n'
+
     def micro(src):
         t = MicroEdits().visit(ast.parse(src))
         return ast.unparse(ast.fix_missing_locations(t)) + '\n'
@@ -834,4 +867,5 @@ def equivalent_variants(repo='/repo'):
             ('adjacent constant assignments merged into tuple assignments', merge),
             ('every argument after the first passed by keyword in calls of package functions', _keywordify(repo)),
             ('the code after an `if ...: return/raise` moved into an else arm', elseret),
-            ('every call / comparison tested by a plain `if` named by a local first', named)]
+            ('every call / comparison tested by a plain `if` named by a local first', named),
+            ('every generator method split into a non-generator wrapper and a private inner generator', thin)]
